@@ -20,7 +20,7 @@ var (
 	poolSinks  = []string{"ka", "kb"}
 	poolLabels = []string{"la", "lb", "lc", "to_next", "to_prev"}
 	poolSels   = []string{"0", "1", "2", "00", "a", "9"}
-	poolWords  = []string{"alpha", "bravo", "charlie", "delta", "echo", "foxtrot", "golf", "hotel", "x", "yy", "zzz"}
+	poolWords  = []string{"alpha", "bravo", "charlie", "delta", "echo", "foxtrot", "golf", "hotel", "x", "yy", "zzz", "blåbær", "日本"}
 )
 
 // GenOpts selects which features a profile exercises.
@@ -43,6 +43,7 @@ type GenOpts struct {
 	EchoInput    bool
 	InternalSig  bool // CATCH/CROAK on flags 0..5 (only where nothing is compared to a model)
 	FewSelectors bool // selector alphabet of three, so duplicate selectors are common
+	RelCatch     bool // CATCH lines with relative targets (_ ^) as well
 }
 
 var fullOpts = GenOpts{Sinks: true, OutputSize: true, CacheSize: true, Flags: true, Errors: true, Langs: true, Sloppy: true,
@@ -320,6 +321,9 @@ func (g *appGen) genPre(node string, loaded map[string]bool, first bool) (code [
 				if node == "_catch" {
 					continue
 				}
+			}
+			if g.o.RelCatch && node != g.names[0] && g.chance(30, "relcatch") {
+				target = pickS(t, []string{"_", "^"}, "relcatchtarget")
 			}
 			code = append(code, app.Instr{Op: refdec.CATCH, Sym: refdec.BS(target), Num: f, Mode: rapid.Bool().Draw(t, "mode")})
 		case k < 14: // CROAK
